@@ -48,6 +48,8 @@ def judge(ctx, case, res, mout, info_lines):
     drops = any(t[0] == 'n' for t in case['table']) and case['cfg']['skipNone']
     ctx.case((case['cfg'], case['table'], case['demand'], case.get('schedule'), case['pre_expected']), drops and (cl >= 2 or not par), sample=small)
     ctx.count('mode:' + ('parallel' if par else 'serial'))
+    if res.get('retried'):
+        ctx.count('scenarios_rerun_after_a_timeout')
     if res.get('timeout'):
         ctx.fail('stream-deadlock', 'the stream did not finish within the time limit', small)
         return
